@@ -58,7 +58,11 @@ def compare(pid):
             diffs.append("Gen/%s.v was not regenerated" % name)
             continue
         cur = open(cur_p).read()
-        old = gzip.open(pin_p, "rt").read()
+        try:
+            old = gzip.open(pin_p, "rt").read()
+        except (OSError, EOFError, UnicodeDecodeError) as e:
+            diffs.append("pinned/%s.v.gz cannot be read (%s): the configuration pin cannot be checked" % (name, e))
+            continue
         if cur == old:
             continue
         dc, do = definitions(cur), definitions(old)
